@@ -566,7 +566,8 @@ fn graph_case(item: u64, rng: &mut Rng, acc: &mut Acc, which: Which, quick: bool
     acc.count("graphs");
     acc.set("graph_classes", su.name.split(':').next().unwrap_or("").split('(').next().unwrap_or("").to_string());
     acc.set("loops", format!("{}", su.loops));
-    let n_sectors = if quick { 12 } else { 60 };
+    // many-loop graphs (exact 7x7 - 9x9 rational algebra per point) keep the quick budget
+    let n_sectors = if quick || su.loops >= 7 { 12 } else { 60 };
     let orders = if which == Which::C02 { sectors_for(rng, ne, n_sectors * 2) } else { sectors_for(rng, ne.max(5), n_sectors) };
     let orders: Vec<Vec<usize>> = orders.into_iter().filter(|o| o.len() == ne).collect();
     let orders = if orders.is_empty() { (0..n_sectors).map(|_| gen::random_order(rng, ne)).collect() } else { orders };
